@@ -3,12 +3,12 @@
 import glob, json, os, re
 root = os.path.dirname(os.path.dirname(os.path.abspath(__file__)))
 for f in sorted(glob.glob("/tmp/seedres_C*.json")):
-    m = re.match(r".*/seedres_(C\d+)(r2)?([A-Z])\.json", f)
+    m = re.match(r".*/seedres_(C\d+)(r\d)?([A-Z])\.json", f)
     if not m:
         continue
     pid, r2, letter = m.groups()
     if r2:
-        pid = pid + "_r2"
+        pid = pid + "_" + r2
     try:
         j = json.load(open(f))
     except Exception:
